@@ -254,8 +254,12 @@ func (g *Gen) execInstr(fr *Frame, st *State, in ssa.Instruction, r string) bool
 			fr.defers = append(fr.defers, deferEntry{guard: r, call: x, fr: fr})
 		}
 	case *ssa.Go:
-		// the goroutine body runs at some later point: effects are not sequenced here
-		g.vc.note("unmodelled", "go statement in "+fr.key)
+		// the goroutine body runs at some later point: its effects are not sequenced here (escapeArgs havocs what it
+		// may write), but the obligations inside it (caller-side clauses at the calls it makes, lock discipline) are
+		// generated by running the body once on a copy of the spawn-time state in which every captured variable that
+		// the spawning function may still assign afterwards is unknown
+		g.checkGoBody(fr, st, x, r)
+		g.vc.note("unmodelled", "go statement in "+fr.key+": body checked on the spawn-time state, effects havocked")
 		g.escapeArgs(fr, st, x.Common())
 	case *ssa.RunDefers:
 		for i := len(fr.defers) - 1; i >= 0; i-- {
@@ -1490,4 +1494,88 @@ func (g *Gen) mapUpdateClauses(fr *Frame, st *State, x *ssa.MapUpdate, m, k, v V
 		g.addObligation(&Obligation{Name: fmt.Sprintf("%s.mapupdate[%s#%d].requires.%s", fr.topKey(), name, top.callIdx["mapupdate:"+name], cl.Name), Func: fr.topKey(), Kind: "mapreq",
 			Props: cl.Props, Guard: fr.curReach, Goal: val, Src: cl.Src, Pos: g.posOf(x)})
 	}
+}
+
+// checkGoBody executes the function started by a go statement on a clone of the state (see the *ssa.Go case).
+func (g *Gen) checkGoBody(fr *Frame, st *State, x *ssa.Go, r string) {
+	c := x.Common()
+	if c.IsInvoke() {
+		return
+	}
+	_, fn, clo, _, _ := g.calleeInfo(fr, c)
+	if fn == nil || len(fn.Blocks) == 0 || !g.isRepoPkg(pkgOfFn(fn)) || fr.onStack(fn) || fr.depth >= g.maxInline {
+		return
+	}
+	cl := st.Clone()
+	// captured variables the spawner stores to after the go statement (same block later, or any block reachable from it)
+	if clo != nil {
+		later := map[*ssa.BasicBlock]bool{}
+		var walk func(b *ssa.BasicBlock)
+		walk = func(b *ssa.BasicBlock) {
+			if later[b] {
+				return
+			}
+			later[b] = true
+			for _, s := range b.Succs {
+				walk(s)
+			}
+		}
+		blk := x.Block()
+		for _, s := range blk.Succs {
+			walk(s)
+		}
+		storesTo := func(addr ssa.Value) bool {
+			seenGo := false
+			for _, in := range blk.Instrs {
+				if in == ssa.Instruction(x) {
+					seenGo = true
+					continue
+				}
+				if st, ok := in.(*ssa.Store); ok && seenGo && st.Addr == addr {
+					return true
+				}
+			}
+			for b := range later {
+				for _, in := range b.Instrs {
+					if st, ok := in.(*ssa.Store); ok && st.Addr == addr {
+						return true
+					}
+				}
+			}
+			return false
+		}
+		if mc, ok := c.Value.(*ssa.MakeClosure); ok {
+			for i, bv := range mc.Bindings {
+				if i < len(clo.Bindings) && storesTo(bv) {
+					b := clo.Bindings[i]
+					if b.Ptr != nil && b.Ptr.Kind == pCell {
+						if cur, ok := cl.cells[b.Ptr.Cell]; ok {
+							cl.cells[b.Ptr.Cell] = Val{T: g.vc.freshConst("gocap", cur.S), S: cur.S, Ty: cur.Ty}
+						}
+					}
+				}
+			}
+		}
+	}
+	cf := g.newFrame(fn, fr)
+	if clo != nil {
+		cf.free = clo.Bindings
+	}
+	for i, p := range fn.Params {
+		if i < len(c.Args) {
+			a := fr.val(c.Args[i])
+			a.Ty = p.Type()
+			cf.vals[p] = a
+			cf.params[p.Name()] = a
+			if p.Object() != nil {
+				cl.src[p.Object()] = a
+				cl.srcAddr[p.Object()] = false
+			}
+		}
+	}
+	saveWS := g.ws
+	g.ws = nil // writes of the goroutine are not part of the spawner's straight-line effects (escapeArgs handles them)
+	g.vc.note("inlined", keyOfSSAFunc(fn)+" (goroutine body, checked on a copy of the state) into "+fr.topKey())
+	g.execFunc(cf, cl, r)
+	g.ws = saveWS
 }
